@@ -463,6 +463,7 @@ Proof.
 Qed.
 
 Ltac lex_finish :=
+  rewrite ?filter_zip_map, ?filter_combine_map;
   unfold ret, step_auto, step_eps, step_plain, mad, maximised; cbv zeta;
   repeat match goal with H : Qltb _ _ = _ |- _ => rewrite H end; reflexivity.
 
@@ -490,7 +491,7 @@ Ltac lex_round step step_sub :=
         match goal with |- context [for_break cases ?body (x0 :: r)] =>
           let E := fresh "E" in
           pose proof (lex_for w step step_sub body
-                        ltac:(intros c cands d' Hc Hu; destruct (Nat.leb_spec (length cands) 1); [reflexivity|]; run; lex_finish)
+                        ltac:(intros c cands d' Hc Hu; cbv beta; destruct (Nat.leb_spec (length cands) 1); [reflexivity|]; run; lex_finish)
                         cases (x0 :: r) d1 Hcases (uniform_unif w _ U)) as E;
           rewrite (bind_Ok_eq _ _ _ _ _ E); reflexivity
         end ]
